@@ -171,6 +171,27 @@ def ordering(prog, chk):
     chk.ob(ok and n_mm == 1, "A13.unit-scale", "write_root_svg:mm", b.where(), "`mm` and the scale factor are applied only when the author supplied neither width nor height", "the mm unit / scale are not confined to the branch where both width and height are missing")
 
 
+def _bbox_components(b, op):
+    """the Option<BoundingBox> component(s) of a generated result - a pair (events, box), or a struct that carries the
+    two - as chased values"""
+    pl = op_place(op)
+    d = b.single_def(pl[0]) if pl is not None and not pl[1] else None
+    for _ in range(3):
+        if d and d[1] != R.TERM and d[2]["k"] == "use" and op_place(d[2]["op"]) is not None and not op_place(d[2]["op"])[1]:
+            d = b.single_def(op_place(d[2]["op"])[0])
+        else:
+            break
+    if not d or d[1] == R.TERM or d[2]["k"] != "aggr":
+        return []
+    out = []
+    for o in d[2].get("ops", []):
+        opl = op_place(o)
+        ty = b.local_ty(opl[0]) if opl is not None and not opl[1] else ((o.get("k") or {}).get("ty") if isinstance(o, dict) else "")
+        if "Option<svgdx::position::BoundingBox>" in str(ty):
+            out.append(b.chase(o))
+    return out
+
+
 def non_contributors(prog, chk):
     for ty in ("SpecsElement", "VarElement", "ConfigElement", "DefaultsElement"):
         b = prog.body(f"<svgdx::transform::{ty} as svgdx::transform::EventGen>::generate_events")
@@ -178,13 +199,10 @@ def non_contributors(prog, chk):
         oks = 0
         good = True
         for x, i, s in b.all_stmts():
-            if "lhs" in s and s["lhs"][0] == 0 and not s["lhs"][1] and s["rv"].get("variant") == "Ok":
+            if "lhs" in s and s["lhs"][0] in b.ret_locals and not s["lhs"][1] and s["rv"].get("variant") == "Ok":
                 oks += 1
-                tup = b.single_def(op_place(s["rv"]["ops"][0])[0]) if op_place(s["rv"]["ops"][0]) else None
-                is_none = False
-                if tup and tup[1] != R.TERM and tup[2]["k"] == "aggr" and tup[2]["ak"] == "tuple" and len(tup[2]["ops"]) == 2:
-                    o1 = b.chase(tup[2]["ops"][1])
-                    is_none = o1[0] == "rv" and o1[1].get("variant") == "None"
+                comps = _bbox_components(b, s["rv"]["ops"][0])
+                is_none = bool(comps) and all(o1[0] == "rv" and o1[1].get("variant") == "None" for o1 in comps)
                 good = good and is_none
         chk.ob(oks >= 1 and good, "A15.non-contributors", ty, b.where(), f"<{ty[:-7].lower()}> returns no bounding box on every successful exit", f"<{ty[:-7].lower()}> can return a bounding box")
     # conditional resets
@@ -224,10 +242,17 @@ def non_contributors(prog, chk):
     oe = prog.body("<svgdx::transform::OtherElement as svgdx::transform::EventGen>::generate_events")
     ok = False
     for x, i, s in oe.all_stmts():
-        if "lhs" in s and s["lhs"][0] == 0 and not s["lhs"][1] and s["rv"].get("variant") == "Ok":
-            tup = oe.single_def(op_place(s["rv"]["ops"][0])[0]) if op_place(s["rv"]["ops"][0]) else None
-            if tup and tup[1] != R.TERM and tup[2]["k"] == "aggr" and len(tup[2]["ops"]) == 2:
-                l = R.origin_local(oe, tup[2]["ops"][1])
+        if "lhs" in s and s["lhs"][0] in oe.ret_locals and not s["lhs"][1] and s["rv"].get("variant") == "Ok":
+            pl0 = op_place(s["rv"]["ops"][0])
+            tup = oe.single_def(pl0[0]) if pl0 else None
+            for _ in range(3):
+                if tup and tup[1] != R.TERM and tup[2]["k"] == "use" and op_place(tup[2]["op"]) is not None and not op_place(tup[2]["op"])[1]:
+                    tup = oe.single_def(op_place(tup[2]["op"])[0])
+                else:
+                    break
+            if tup and tup[1] != R.TERM and tup[2]["k"] == "aggr" and len(tup[2]["ops"]) >= 2:
+                boxes = [o_ for o_ in tup[2]["ops"] if op_place(o_) is not None and not op_place(o_)[1] and "Option<svgdx::position::BoundingBox>" in str(oe.local_ty(op_place(o_)[0]))]
+                l = R.origin_local(oe, boxes[0]) if len(boxes) == 1 else None
                 if l is not None:
                     srcs = set()
                     for d in oe.defs_of(l):
